@@ -686,7 +686,10 @@ def mk_exp(a) -> Rat:
     a = rat(a)
     if a.is_zero():
         return Rat.const(1)
-    # exp(log(c)*k) stays symbolic; exp(x + log y) is not split (not needed)
+    # exp(log y) = y  (y > 0 wherever log y is defined); exp(x + log y) is not split (not needed)
+    sa = a.single_atom()
+    if sa is not None and sa.kind == "fn" and sa.name == "log" and len(sa.args) == 1 and isinstance(sa.args[0], Rat):
+        return sa.args[0]
     return Rat.atom(_exp_atom(a))
 
 
